@@ -265,6 +265,8 @@ impl AbstractTree for Tree {
         let config = self.tree_config();
         let mut versions = self.get_version_history_lock();
 
+        let old_version = versions.latest_version().version;
+
         versions.upgrade_version(
             &config.path,
             |v| {
@@ -276,7 +278,20 @@ impl AbstractTree for Tree {
             },
             &config.seqno,
             &config.visible_seqno,
-        )
+        )?;
+
+        // NOTE: The cleared tables and blob files are not referenced by the new version anymore,
+        // so they need to be deleted once the last snapshot that can still read them is gone
+        // (if we crash before that, they are cleaned up as orphans upon recovery)
+        for table in old_version.iter_tables() {
+            table.mark_as_deleted();
+        }
+
+        for blob_file in old_version.blob_files.iter() {
+            blob_file.mark_as_deleted();
+        }
+
+        Ok(())
     }
 
     #[doc(hidden)]
